@@ -331,13 +331,39 @@ func runC01(rc *RunCtx, faulty bool) *simkit.Violation {
 	}
 	w.Note("cafs %s; Put %d bytes via %s", kn, size, srcDesc)
 
+	putFault := faulty && t.Bool(1, 2)
+	if putFault {
+		// one write of the Put fails (before landing, or after landing with a lost acknowledgement) - most often its last
+		// one, the root key; the caller puts the same content again through the same cafs until it is told it worked
+		nLeaves := (size + int(kn.leaf) - 1) / int(kn.leaf)
+		nth := nLeaves
+		if t.Bool(1, 3) {
+			nth = t.Range(0, nLeaves)
+		}
+		w.Faults = &simkit.FaultCfg{Plan: []*simkit.Planned{{Client: cl.Name, Nth: nth, Kind: simkit.Kind(int(simkit.FErr) + t.Choose(2))}}}
+	}
 	put, v := w.Do(cl, "put", func() (interface{}, error) { return fs.Put(bg, src) })
+	w.Faults = nil
 	if v != nil {
 		v.Property = prop
 		return v
 	}
 	if p := taskProblem(prop, put, "Put"); p != nil {
 		return p
+	}
+	if putFault && put.Err != nil && fired(w) {
+		w.Probe("put-failed-on-store-error")
+		put, v = w.Do(cl, "put-again", func() (interface{}, error) { return fs.Put(bg, bytes.NewReader(content)) })
+		if v != nil {
+			v.Property = prop
+			return v
+		}
+		if p := taskProblem(prop, put, "Put"); p != nil {
+			return p
+		}
+		if put.Err == nil {
+			w.Probe("put-retried-after-store-error")
+		}
 	}
 	if put.Err != nil {
 		return Viol(prop, "put-error", "Put", "", "fault-free Put of %d bytes (leaf %d, %s) failed: %v", size, kn.leaf, srcDesc, put.Err)
@@ -365,6 +391,8 @@ func runC01(rc *RunCtx, faulty bool) *simkit.Violation {
 			return Viol(prop, "harness", "cafs.New", "", "cafs.New: %v", err)
 		}
 	}
+	// (a run whose Put met a store error reads without faults: every read must succeed)
+	faulty = faulty && !putFault
 	if faulty {
 		w.Faults = &simkit.FaultCfg{Err: 100, Stall: 30, Reset: 100, Budget: 4, Eligible: func(c *simkit.Call) bool { return c.Op == simkit.OpGet || c.Op == simkit.OpGetAt }}
 	}
